@@ -8,7 +8,9 @@ prop("C01",
      level_note="_partial: carries C04's side conditions (Galaxy.Plugin.assumed) and therefore its two known findings: after a "
                 "stale-lister bind or with a stale record under the key the live pod's address is freed and handed to the next "
                 "pod (corpus/C01/*-shared-ip.ops reproduce it on the real code). unique_owner is proved under the same side "
-                "conditions although only the reload-delete-fault condition matters for it.",
+                "conditions although only the reload-delete-fault condition matters for it. "
+                "A reload that removes an address a live pod holds and a later reload that adds it again hand the address to a "
+                "second pod: excluded by the reload side condition (operator error; theorem and monitor exempt it, like C04).",
      technique="Lean 4 inductive invariant over an executable model + regenerated structural facts (factgen plugin) + differential "
                "correspondence with the REAL FloatingIPPlugin (see C04); monitor = no address in the binding annotation of two "
                "live pods, IPAM dump lists every address once, FloatingIP objects and memory agree on key/uid/node/policy; "
